@@ -618,6 +618,25 @@ fn run(ctx: &mut Ctx) {
             }
         }
     }
+    // the walk follows the size word whatever the type word says: every specified type number with every size
+    ctx.bound("typed_sizes", "regions [tag of type T, size S][string tag of 9 bytes][end tag] for T in 0..=22, 0x1337 and S in 8..=48: the walk steps by S rounded up to 8 for every type (the payload of every item is S - 8 bytes)");
+    for typ in (0u32..=22).chain([0x1337]) {
+        for size in 8usize..=48 {
+            let mut pl: Vec<u8> = vec![0u8; round8(size)];
+            for (j, b) in pl.iter_mut().enumerate() {
+                *b = marker(j, 6);
+            }
+            wr32(&mut pl, 0, typ);
+            wr32(&mut pl, 4, size as u32);
+            pl.extend_from_slice(&[1, 0, 0, 0, 9, 0, 0, 0, 0x61, 0, 0, 0, 0, 0, 0, 0]);
+            pl.extend_from_slice(&[0, 0, 0, 0, 8, 0, 0, 0]);
+            ctx.leaf(
+                || J::obj().set("body", "typed-sizes").set("type", typ).set("size", size).set("payload", J::hex(&pl)),
+                // (module tags below 17 bytes are a documented refusal of the module iterator: not walked here)
+                |ctx| exec_region(ctx, &big, &pl, typ != 3),
+            );
+        }
+    }
     // modules among tags of every other kind: what other tags say (memory sizes, memory maps, load addresses) has no
     // bearing on which module tags the iterator yields
     ctx.bound("modules_among_kinds", "regions [K][module][K][module][K][end] and [module][K][module][end] for every specified kind K (realistic sample; basic memory info also with 0 / 1 MiB / 64 MiB upper memory, memory maps covering 1 MiB / 128 MiB) x module ranges {1..2 MiB, 16..17 MiB, 3.9 GiB..4 GiB-1, 0..0, end below start}: tags() and module_tags() against the reference walk");
